@@ -351,7 +351,9 @@ func trunc(s string) string {
 }
 
 // Strs is the string pool for Fmap/Join over strings: ASCII, 2/3/4-byte runes, mixed, invalid encodings.
-var Strs = []string{"", "a", "abc", "é", "éa", "aé", "世界", "a世b界c", "😀", "x😀y", "\xff", "a\xffb", "\xe4\xb8", "\xf0\x9f\x98", "ab\x80\x80", "日本語テキスト", "mixé世😀\xfez", "\x00", "%d", "tab\t\n"}
+var Strs = []string{"", "a", "abc", "é", "éa", "aé", "世界", "a世b界c", "😀", "x😀y", "\xff", "a\xffb", "\xe4\xb8", "\xf0\x9f\x98", "ab\x80\x80", "日本語テキスト", "mixé世😀\xfez", "\x00", "%d", "tab\t\n",
+	// the replacement character itself, correctly encoded (a decoder must not take it for an error), next to real errors
+	"\uFFFD", "ok \uFFFD ok", "\uFFFD\xff\uFFFD", "\xef\xbf", "\U0010FFFF", "\xed\xa0\x80"}
 
 // MemIndex maps a step of a Mem call sequence to an argument-vector index: a small range so that
 // arguments repeat (as fresh, Equal-but-not-identical copies), including the colliding and +-0 vectors.
